@@ -184,6 +184,7 @@ class C04World:
         self.mutations = 0
         self.perturbations = 0
         self.foreign = None
+        self.halted = None
         self.ev_index = -1
         self._swap_how = "copy"
 
@@ -224,6 +225,30 @@ class C04World:
                 raise _V(Violation("CONVERT", f"rel->abs->rel lossy after {op}{where}: "
                                    f"{first_diff(re_, rel_events(back)) or (rd, rel_duration(back))}", key))
         return (ae, ad, re_, rd)
+
+    def _judge_after_alloc_fault(self, S, op, pre, es):
+        """What the book-keeping of the two views owes the caller after an operation died half-way - and no more: the DATA of the
+        view the operation was working on may be half-done (times moved but not yet re-sorted, say), and what a conversion makes
+        of such a list is nobody's promise. Judged: (1) the sequence is not left with both views marked stale; (2) a view that
+        is still marked fresh next to the other fresh view agrees with it as stored. If the stored state is not canonical any
+        more (the full state oracle would object), the run ends here, unjudged and not counted as a foreign failure."""
+        key = {"op": op, "pre": pre, "exc": "MemoryError"}
+        how = type(es).__name__ if es is not None else "returned"
+        if S._abs_stale and S._rel_stale:
+            raise _V(Violation("EXC-UNREADABLE", f"both views marked stale after {op} from state {pre} (after {op} met a failing "
+                               f"allocation: {how})", key))
+        a, r = observe.raw_abs(S), observe.raw_rel(S)
+        if a is not None and r is not None:
+            sa = sorted(a, key=lambda m: m.time)
+            if (abs_events(sa), abs_duration(sa)) != (rel_events(r), rel_duration(r)):
+                raise _V(Violation("EXC-DIVERGE", f"both views are marked fresh after {op} from state {pre} met a failing allocation "
+                                   f"({how}) but they disagree as stored: "
+                                   f"{first_diff(abs_events(sa), rel_events(r)) or (abs_duration(sa), rel_duration(r))}"[:600], key))
+        try:
+            self.check_state(S, op, pre, " (after a failing allocation)")
+        except _V:
+            self.stats["reach_alloc/half_done_state_left_behind:run_ends_unjudged"] += 1
+            self.halted = "alloc-aftermath"
 
     def canon_result(self, r, op, pre):
         """Canonical, comparable form of a returned value; runs the state oracles on returned sequences."""
@@ -307,12 +332,7 @@ class C04World:
                 self.stats["fault/alloc_failure_inside_operation"] += 1
                 self.stats[f"reach_alloc/{op}|{'raised' if es is not None else 'swallowed'}"] += 1
                 self.perturbations += 1
-                try:
-                    self.check_state(S, op, pre, f" (after {op} met a failing allocation: {type(es).__name__ if es else 'returned'})")
-                except _V as v:
-                    v.v.cls = "EXC-" + v.v.cls
-                    v.v.key = dict(v.v.key, exc="MemoryError")
-                    raise
+                self._judge_after_alloc_fault(S, op, pre, es)
                 return "ok:alloc-fault"
             self.stats["fault_not_fired/alloc"] += 1
         else:
@@ -1003,14 +1023,14 @@ def c04_run_one(seed, tier, index):
         for ev in _pingpong_events(rng):
             events.append(ev)
             viol = world.apply(ev, len(events) - 1)
-            if viol is not None or world.foreign:
+            if viol is not None or world.foreign or world.halted:
                 break
     elif directed:
         planned = _directed_events(rng, world, op)
         for ev in planned:
             events.append(ev)
             viol = world.apply(ev, len(events) - 1)
-            if viol is not None or world.foreign:
+            if viol is not None or world.foreign or world.halted:
                 break
     else:
         for _ in range(knobs["n_events"]):
@@ -1024,7 +1044,7 @@ def c04_run_one(seed, tier, index):
                           "args": prev.get("args", {}) if rng.random() < 0.5 else OPS[prev["op"]][1](rng, slot_prev.seq)}
             events.append(ev)
             viol = world.apply(ev, len(events) - 1)
-            if viol is not None or world.foreign:
+            if viol is not None or world.foreign or world.halted:
                 break
     if viol is None and not world.foreign:
         viol = world.finish()
@@ -1054,7 +1074,7 @@ def c04_replay(trace, keep_log=False):
     viol = None
     for i, ev in enumerate(trace["events"]):
         viol = world.apply(ev, i)
-        if viol is not None or world.foreign:
+        if viol is not None or world.foreign or world.halted:
             break
     if viol is None and not world.foreign:
         viol = world.finish()
